@@ -9,6 +9,15 @@ import (
 
 // Per-property configuration: sweep scopes, level, explanation.
 var propConfigs = map[string]propConfig{
+	"C01": {ID: "C01", Level: "proof", Structural: []string{"immutable-fields", "owned-writes", "owned-calls"},
+		Explain: "Broker routing: the broker's tables are related by a data-structure invariant (brokerInv/brokerIndex/brokerOwn) preserved by every sync* function; per-operation postconditions over the abstract membership view give who is attempted, how often and with what content, for every table, option dictionary and number of sessions.",
+		Assume: []string{
+			"distinct sessions have distinct send channels (chanInj), assumed in syncPubEvent/syncPublish",
+			"fewer than 2^53 subscriptions are created per realm (idsFresh: the id generator has not wrapped)",
+			"broker state is confined to the broker goroutine: sync* functions run as atomic actions (checked structurally where claimed, C07/C11)",
+			"composition of per-subscription exactly-once (syncPubEvent) with once-per-matching-subscription (syncPublish) into the per-session statement is a paper step",
+			"an attempt is recorded whether or not the peer's queue accepted the message (a blocked peer loses messages: C07)",
+		}},
 	"C19": {ID: "C19", Level: "proof",
 		Explain: "URI validation, matching and id generation: the real wamp functions are verified against reference languages/spec functions built from the property statement, for all strings (SMT alphabet) and all 64-bit values.",
 		Assume: []string{
